@@ -204,10 +204,12 @@ IdealOp(r, self, o, g, obs, operOf, topOk, root) ==
                 [r EXCEPT !.st = SpendGrant(Effect(s, o, x, self, g, operOf), o, self, g),
                           !.bad = @ \cup {[k |-> p, m |-> o.m, id |-> o.id] : p \in AuthProblems(s, o, x, self, g)}]
       [] o.op \in {"call", "create", "recall"} ->
-           IF ~ok THEN r
+           \* a CREATE executed by a contract bumps that contract's nonce whether or not the constructor succeeds
+           IF ~ok THEN (IF o.op = "create" /\ self # g THEN [r EXCEPT !.st.nonce[self] = BigAdd(@, "1")] ELSE r)
            ELSE LET tgt  == IF HasBody(o) THEN ContractOf(o) ELSE Named(o.to, self)
                     body == IF o.op = "recall" THEN AltInOp(root, tgt) ELSE o.body
-                    s1 == [s EXCEPT !.bank = IF tgt \in Accts(s) THEN Add(Sub(@, self, o.value), tgt, o.value) ELSE Sub(@, self, o.value)]
+                    s0 == IF o.op = "create" /\ self # g THEN [s EXCEPT !.nonce[self] = BigAdd(@, "1")] ELSE s
+                    s1 == [s0 EXCEPT !.bank = IF tgt \in Accts(s) THEN Add(Sub(@, self, o.value), tgt, o.value) ELSE Sub(@, self, o.value)]
                     s2 == IF o.op = "create" THEN [s1 EXCEPT !.nonce[tgt] = "1"] ELSE s1
                 IN IF body # <<>> THEN IdealBody([r EXCEPT !.st = s2], tgt, body, g, obs, operOf, 1, root)
                    ELSE [r EXCEPT !.st = s2]
@@ -229,9 +231,9 @@ RECURSIVE ExpectFlags(_, _, _, _, _, _)
 ExpectFlags(st, self, body, obs, i, root) ==
     IF i > Len(body) THEN st
     ELSE LET o == body[i]
-             st1 == IF o.op \in {"pc", "call", "recall"}
+             st1 == IF o.op \in {"pc", "call", "recall", "create"}
                     THEN [st EXCEPT ![self] = [@ EXCEPT !["s" \o ToString(o.id)] = Flag(obs, self, o)]] ELSE st
-             st2 == IF o.op = "call" /\ o.body # <<>> /\ Flag(obs, self, o) = 2
+             st2 == IF o.op \in {"call", "create"} /\ o.body # <<>> /\ Flag(obs, self, o) = 2
                     THEN ExpectFlags(st1, ContractOf(o), o.body, obs, 1, root)
                     ELSE IF o.op = "recall" /\ Flag(obs, self, o) = 2
                     THEN ExpectFlags(st1, o.to, AltInOp(root, o.to), obs, 1, root) ELSE st1
@@ -263,7 +265,7 @@ HasPc(body) == \E i \in 1..Len(body) : HasPcOp(body[i])
 \* some frame that made a precompile call was reverted although the transaction succeeded
 RevertedWithPc(self, body, obs, root) ==
     \E i \in 1..Len(body) : LET o == body[i] IN
-        \/ (o.op = "call" /\ o.body # <<>> /\
+        \/ (o.op \in {"call", "create"} /\ o.body # <<>> /\
              ((Flag(obs, self, o) = 1 /\ HasPc(o.body)) \/ (Flag(obs, self, o) = 2 /\ RevertedWithPc(ContractOf(o), o.body, obs, root))))
         \/ (o.op = "recall" /\
              ((Flag(obs, self, o) = 1 /\ HasPc(AltInOp(root, o.to))) \/ (Flag(obs, self, o) = 2 /\ RevertedWithPc(o.to, AltInOp(root, o.to), obs, root))))
@@ -286,7 +288,7 @@ HasRevertedPc(e) == \/ (~TxOk(e) /\ HasPcOp(e.top))
 RECURSIVE RevertedAny(_, _, _, _)
 RevertedAny(self, body, obs, root) ==
     \E i \in 1..Len(body) : LET o == body[i] IN
-        \/ (o.op = "call" /\ o.body # <<>> /\ (Flag(obs, self, o) = 1 \/ (Flag(obs, self, o) = 2 /\ RevertedAny(ContractOf(o), o.body, obs, root))))
+        \/ (o.op \in {"call", "create"} /\ o.body # <<>> /\ (Flag(obs, self, o) = 1 \/ (Flag(obs, self, o) = 2 /\ RevertedAny(ContractOf(o), o.body, obs, root))))
         \/ (o.op = "recall" /\ (Flag(obs, self, o) = 1 \/ (Flag(obs, self, o) = 2 /\ RevertedAny(o.to, AltInOp(root, o.to), obs, root))))
 HasRevertedFrame(e) == ~TxOk(e) \/ (HasBody(e.top) /\ RevertedAny(ContractOf(e.top), e.top.body, e.post.storage, e.top))
 
@@ -295,7 +297,7 @@ RECURSIVE FailedPc(_, _, _, _)
 FailedPc(self, body, obs, root) ==
     \E i \in 1..Len(body) : LET o == body[i] IN
         \/ (o.op = "pc" /\ Flag(obs, self, o) = 1)
-        \/ (o.op = "call" /\ o.body # <<>> /\ Flag(obs, self, o) = 2 /\ FailedPc(ContractOf(o), o.body, obs, root))
+        \/ (o.op \in {"call", "create"} /\ o.body # <<>> /\ Flag(obs, self, o) = 2 /\ FailedPc(ContractOf(o), o.body, obs, root))
         \/ (o.op = "recall" /\ Flag(obs, self, o) = 2 /\ FailedPc(o.to, AltInOp(root, o.to), obs, root))
 HasFailedPc(e) == TxOk(e) /\ HasBody(e.top) /\ FailedPc(ContractOf(e.top), e.top.body, e.post.storage, e.top)
 
@@ -308,7 +310,11 @@ DiffFields(post, ideal) == {f \in DOMAIN post : post[f] # ideal[f]}
 (* M: the as-built StateDB semantics.  ms = [s, cache, dirty]; cache[a] = "-" : not loaded *)
 \* orig[a]: the balance the account had when it was loaded (what a journal roll-back restores for an account
 \* that was loaded inside the rolled-back frame: the state object stays in the StateDB)
-Load(ms, a)  == IF a \notin DOMAIN ms.cache \/ ms.cache[a] # "-" THEN ms ELSE [ms EXCEPT !.cache[a] = ms.s.bank[a], !.orig[a] = ms.s.bank[a]]
+\* (the state object carries balance AND nonce: ncache / norig are the same for the nonce)
+Load(ms, a)  == IF a \notin DOMAIN ms.cache \/ ms.cache[a] # "-" THEN ms
+                ELSE [ms EXCEPT !.cache[a] = ms.s.bank[a], !.orig[a] = ms.s.bank[a], !.ncache[a] = ms.s.nonce[a], !.norig[a] = ms.s.nonce[a]]
+NTouch(ms, a, v) == LET m1 == Load(ms, a) IN
+                    IF a \notin DOMAIN m1.cache THEN m1 ELSE [m1 EXCEPT !.ncache[a] = v, !.dirty = @ \cup {a}]
 Touch(ms, a, x) == LET m1 == Load(ms, a) IN
                    \* (stateObject.AddBalance/SubBalance return at once for a zero amount: nothing is journaled)
                    IF a \notin DOMAIN m1.cache \/ BigIsZero(x) THEN m1
@@ -322,6 +328,7 @@ Flush(ms) ==
         d == {a \in dd : a \in DOMAIN ms.cache /\ ms.cache[a] # "-"}
         delta == FoldSet(LAMBDA a, acc : BigAdd(acc, BigSub(ms.cache[a], ms.s.bank[a])), "0", d)
         s1 == [ms.s EXCEPT !.bank = [a \in DOMAIN @ |-> IF a \in d THEN ms.cache[a] ELSE @[a]],
+                           !.nonce = [a \in DOMAIN @ |-> IF a \in d THEN ms.ncache[a] ELSE @[a]],
                            !.supply = BigAdd(@, delta)]
         burnt == FoldSet(LAMBDA a, acc : BigAdd(acc, s1.bank[a]), "0", ms.dead)
         s2 == [s1 EXCEPT !.bank = [a \in DOMAIN @ |-> IF a \in ms.dead THEN "0" ELSE @[a]],
@@ -412,13 +419,17 @@ RECURSIVE MBody(_, _, _, _, _, _, _)
 \* dirty after the roll-back.  (The success flags live in the recorder contract, which is written again
 \* by every later record, so they are always rolled back: values 1 and 2 are flags, 7 is an SSTORE.)
 RolledBack(m0, r) ==
-    LET kept == [a \in DOMAIN m0.cache |-> IF m0.cache[a] # "-" \/ "stale_overwrite" \notin Defects THEN m0.cache[a] ELSE r.ms.orig[a]] IN
+    LET asb == "stale_overwrite" \in Defects
+        kept  == [a \in DOMAIN m0.cache |-> IF m0.cache[a] # "-" \/ ~asb THEN m0.cache[a] ELSE r.ms.orig[a]]
+        nkept == [a \in DOMAIN m0.ncache |-> IF m0.ncache[a] # "-" \/ ~asb THEN m0.ncache[a] ELSE r.ms.norig[a]] IN
     IF "no_cosmos_revert" \in Defects /\ r.ms.nflush # m0.nflush
-    THEN [m0 EXCEPT !.cache = kept, !.orig = r.ms.orig, !.s = [r.ms.s EXCEPT !.logs = m0.s.logs, !.storage =
+    THEN [m0 EXCEPT !.cache = kept, !.orig = r.ms.orig, !.ncache = nkept, !.norig = r.ms.norig,
+                    !.s = [r.ms.s EXCEPT !.logs = m0.s.logs,
+                                        !.storage =
                  [cc \in DOMAIN @ |-> IF cc \in m0.dirty THEN m0.s.storage[cc]
                                        ELSE [k \in DOMAIN @[cc] |-> IF r.ms.fst[cc][k] = 7 THEN 7 ELSE m0.s.storage[cc][k]]]],
                       !.fst = r.ms.fst, !.nflush = r.ms.nflush]
-    ELSE [m0 EXCEPT !.cache = kept, !.orig = r.ms.orig]
+    ELSE [m0 EXCEPT !.cache = kept, !.orig = r.ms.orig, !.ncache = nkept, !.norig = r.ms.norig]
 
 \* returns [ms, ok]: ok = FALSE when the frame reverted
 MOp(ms, self, o, g, operOf, root) ==
@@ -454,13 +465,16 @@ MOp(ms, self, o, g, operOf, root) ==
                body == IF o.op = "recall" THEN AltInOp(root, tgt) ELSE o.body
                m00 == Load(Load(ms, self), tgt)
                \* evm.Create bumps the creator's nonce through the StateDB: the creator is journal-dirty
-               m0 == IF o.op = "create" THEN [m00 EXCEPT !.dirty = @ \cup {self}] ELSE m00
+               \* (the bump happens before the snapshot of the creation: it survives a failing constructor)
+               m0 == IF o.op = "create"
+                     THEN NTouch(m00, self, IF self = g THEN m00.ncache[self] ELSE BigAdd(m00.ncache[self], "1")) ELSE m00
            IN IF BigLT(m0.cache[self], o.value) THEN [ms |-> m0, ok |-> FALSE]
-              ELSE LET m1 == IF BigIsZero(o.value) THEN m0 ELSE Touch(Touch(m0, self, BigNeg(o.value)), tgt, o.value)
+              ELSE LET m1a == IF BigIsZero(o.value) THEN m0 ELSE Touch(Touch(m0, self, BigNeg(o.value)), tgt, o.value)
+                       \* the new account gets nonce 1 inside the snapshot of the creation (EIP-161)
+                       m1 == IF o.op = "create" THEN NTouch(m1a, tgt, "1") ELSE m1a
                    IN IF body = <<>> THEN [ms |-> m1, ok |-> TRUE]
                       ELSE LET r == MBody(m1, tgt, body, g, operOf, 1, root) IN
-                           IF r.ok THEN (IF o.op = "create" THEN [r EXCEPT !.ms.s.nonce[tgt] = "1", !.ms.dirty = @ \cup {tgt}] ELSE r)
-                           ELSE [ms |-> RolledBack(m0, r), ok |-> FALSE]
+                           IF r.ok THEN r ELSE [ms |-> RolledBack(m0, r), ok |-> FALSE]
       [] o.op = "log" -> [ms |-> [ms EXCEPT !.s.logs = Append(@, o.id)], ok |-> TRUE]
       [] o.op = "sstore" -> [ms |-> [Load(ms, self) EXCEPT !.s.storage[self] = [@ EXCEPT !["s" \o ToString(o.id)] = 7], !.dirty = @ \cup {self}], ok |-> TRUE]
       [] o.op = "selfdestruct" ->
@@ -478,11 +492,11 @@ MBody(ms, self, body, g, operOf, i, root) ==
     ELSE LET o == body[i]
              r == MOp(ms, self, o, g, operOf, root)
              \* the executing contract records success + 1 for its calls (in the recorder contract)
-             rec == IF o.op \in {"pc", "call", "recall"} /\ self # g
+             rec == IF o.op \in {"pc", "call", "recall", "create"} /\ self # g
                     THEN [r.ms EXCEPT !.s.storage[self] = [@ EXCEPT !["s" \o ToString(o.id)] = IF r.ok THEN 2 ELSE 1]] ELSE r.ms
          IN IF o.op \in {"revert", "invalid"} THEN [ms |-> ms, ok |-> FALSE]
             ELSE IF o.op = "selfdestruct" THEN r
-            ELSE IF ~r.ok /\ o.op \in {"pc", "call", "recall"} /\ o.mode = "bubble" /\ self # g THEN [ms |-> r.ms, ok |-> FALSE]
+            ELSE IF ~r.ok /\ o.op \in {"pc", "call", "recall", "create"} /\ o.mode = "bubble" /\ self # g THEN [ms |-> r.ms, ok |-> FALSE]
             ELSE MBody(rec, self, body, g, operOf, i + 1, root)
 
 \* final commit
@@ -492,7 +506,8 @@ FlushFinal(ms) == Flush(ms).s
 MStart(pre, feeMax) ==
     LET g == "S"
         s0 == [pre EXCEPT !.bank = Sub(@, g, feeMax), !.mods = Add(@, "feecollector", feeMax), !.nonce[g] = BigAdd(@, "1")]
-    IN [s |-> s0, cache |-> [a \in Accts(s0) |-> "-"], orig |-> [a \in Accts(s0) |-> "-"], dirty |-> {}, dead |-> {}, fst |-> s0.storage, nflush |-> 0]
+    IN [s |-> s0, cache |-> [a \in Accts(s0) |-> "-"], orig |-> [a \in Accts(s0) |-> "-"],
+        ncache |-> [a \in Accts(s0) |-> "-"], norig |-> [a \in Accts(s0) |-> "-"], dirty |-> {}, dead |-> {}, fst |-> s0.storage, nflush |-> 0]
 MTx(e) ==
     LET g == "S"
         ms0 == MStart(e.pre, e.res.feeMax)
